@@ -31,6 +31,13 @@ func init() {
 		pkgCtl + ".getPatch":      "vGetPatchModel",
 		pkgCtl + ".ApplyRevision": "vApplyRevisionModel",
 	}
+	wiringStubs := map[string]string{
+		pkgCtl + ".getPatch":                                           "vGetPatchModel",
+		pkgCtl + ".ApplyRevision":                                      "vApplyRevisionModel",
+		"k8s.io/client-go/tools/record.NewBroadcaster":                 pkgCtl + ".vNewBroadcasterModel",
+		"k8s.io/client-go/util/workqueue.NewNamedRateLimitingQueue":    pkgCtl + ".vNewQueueModel",
+		"k8s.io/client-go/util/workqueue.DefaultControllerRateLimiter": pkgCtl + ".vDefaultRateLimiterModel",
+	}
 	stepBounds := func(a []int) string {
 		return fmt.Sprintf("one UpdateStatefulSet from a snapshot with <=%d pods at distinct ordinals of [0,%d], replicas in [0,%d], <=%d delete slots with values in [0,%d], options=%#x", a[0], a[1]+a[2], a[1], a[2], a[1]+a[2], a[3])
 	}
@@ -49,6 +56,7 @@ func init() {
 		oWildSlots
 		oStalePods
 		oDeleteGone
+		oNoHistory
 	)
 	const (
 		mC03 = 1 << iota
@@ -129,7 +137,7 @@ func init() {
 		Runs: []runSpec{
 			step("step", []int{1, 2, 1, oThreeRevs | oStatusSym, mC12}, []int{2, 2, 1, oThreeRevs | oStatusSym, mC12},
 				[]string{"0 <= currentReplicas <= replicas", "observedGeneration is the generation reconciled"},
-				[]string{"status written", "currentRevision advanced", "quiescent reconcile with a status write"}),
+				[]string{"status written", "currentRevision advanced", "quiescent reconcile with a status write", "quiescent reconcile without a status write"}),
 			step("step-status-conflict", []int{1, 1, 1, oThreeRevs | oStatusSym | oStatusConflict, mC12}, []int{1, 2, 1, oThreeRevs | oStatusSym | oStatusConflict, mC12},
 				[]string{"observedGeneration is the generation reconciled"},
 				[]string{"fault injected at set.updateStatus"}),
@@ -139,8 +147,9 @@ func init() {
 	register(&spec{
 		ID: "C14", Title: "Parallel policy never waits on other pods when scaling",
 		Runs: []runSpec{
-			step("step", []int{2, 2, 1, oPolicyParallel | oThreeRevs, mC14}, []int{2, 3, 2, oPolicyParallel | oThreeRevs, mC14},
-				[]string{"every vacant desired ordinal is created in the same reconcile", "every live pod outside the desired set is deleted in the same reconcile"},
+			step("step", []int{2, 2, 1, oPolicyParallel | oThreeRevs, mC14 | mC07}, []int{2, 3, 2, oPolicyParallel | oThreeRevs, mC14 | mC07},
+				[]string{"every vacant desired ordinal is created in the same reconcile", "every live pod outside the desired set is deleted in the same reconcile",
+					"rolling update still takes down one pod at a time", "update delete only when every higher desired pod is updated and healthy"},
 				[]string{"parallel reconcile checked"}),
 			step("step-three-healthy-pods", []int{3, 1, 1, oPolicyParallel | oLeanPods | oThreeRevs, mC14}, []int{3, 2, 1, oPolicyParallel | oLeanPods | oThreeRevs, mC14},
 				[]string{"every live pod outside the desired set is deleted in the same reconcile"}, []string{"parallel reconcile checked"}),
@@ -230,6 +239,12 @@ func init() {
 				},
 				Asserts: []string{"live revisions are never deleted"},
 				Covers:  []string{"a revision delete was issued"}},
+			{Name: "history-rollback", Pkg: pkgCtl, Func: "VH_History", Quick: []int{2, 1, 4}, Thorough: []int{2, 2, 5},
+				Bounds: func(a []int) string {
+					return fmt.Sprintf("as 'history' (own revisions only in the quick tier) but the stored revision that equals the template may be older than the %d others, so the reconcile re-uses and renumbers it (a rollback) and trims history in the same pass; %d pod(s)", a[0], a[1])
+				},
+				Asserts: []string{"live revisions are never deleted", "at most revisionHistoryLimit unused revisions remain"},
+				Covers:  []string{"a revision delete was issued", "the revision of the template may be an old one"}},
 		},
 		Stubs:        ctlStubs,
 		Assumptions:  []string{"creation timestamps of the revisions are equal (ties are broken by name)", "getPatch/ApplyRevision models as in C03"},
@@ -252,6 +267,12 @@ func init() {
 				},
 				Asserts: []string{"status.updateRevision names a stored revision", "a non-template edit keeps the update revision"},
 				Covers:  []string{"rollback to an older revision", "new template"}},
+			{Name: "revisions-conflict-on-renumbering", Pkg: pkgCtl, Func: "VH_Revisions", Quick: []int{2, 8}, Thorough: []int{3, 8},
+				Bounds: func(a []int) string {
+					return fmt.Sprintf("%d stored revisions as above; the write that renumbers a re-used revision may be rejected once with a conflict and is retried by the controller", a[0])
+				},
+				Asserts: []string{"after a rollback the re-used revision carries the highest number", "a re-used revision is renumbered above all others"},
+				Covers:  []string{"rollback to an older revision", "fault injected at rev.update"}},
 		},
 		Stubs: ctlStubs,
 		Assumptions: []string{
@@ -288,10 +309,10 @@ func init() {
 		Runs: []runSpec{
 			{Name: "events", Pkg: pkgCtl, Func: "VH_Events", Quick: []int{0}, Thorough: []int{0},
 				Bounds: func(a []int) string {
-					return "one event of each kind (add, update, delete, tombstone, junk tombstone, set change, set tombstone) over every combination of owner {none, this set, stale UID, other kind, second set} x label match {none, set1, set2, both} x terminating, old and new pod for updates, resource versions equal or not; two sets in the real lister"
+					return "the real constructor NewStatefulSetController wired to recording informers; one event of each kind delivered through the handlers it registered (pod add, update, delete, tombstone, junk tombstone; set add+delete, set tombstone, set update) over every combination of owner {none, this set, stale UID, other kind, second set} x label match {none, set1, set2, both} x terminating, old and new pod for updates, resource versions equal or not; set updates over spec/generation changed x status changed x delete-slots annotation added/removed x pause flag raised/lowered/kept x labels changed, and a resync with identical objects; two sets in the real lister"
 				},
-				Asserts: []string{"exactly the sets the event concerns are enqueued"},
-				Covers:  []string{"event kind 0", "event kind 1", "event kind 2", "event kind 3", "event kind 4", "event kind 5", "event kind 6"}},
+				Asserts: []string{"exactly the sets the event concerns are enqueued", "one handler each is registered for pods and for sets"},
+				Covers:  []string{"event kind 0", "event kind 1", "event kind 2", "event kind 3", "event kind 4", "event kind 5", "event kind 6", "event kind 7", "a set changed", "set resync"}},
 			{Name: "events-invalid-selector", Pkg: pkgCtl, Func: "VH_Events", Quick: []int{1}, Thorough: []int{1},
 				Bounds: func(a []int) string {
 					return "as above with a third set whose selector is invalid in the same namespace"
@@ -304,8 +325,8 @@ func init() {
 				Asserts: []string{"a failed reconcile is put back with backoff", "a successful reconcile clears its backoff", "the key is always marked done"},
 				Covers:  []string{"reconcile with a failing API call", "reconcile without failures"}},
 		},
-		Stubs:        ctlStubs,
-		Assumptions:  []string{"the work queue is a recording fake; the set-informer closures registered in NewStatefulSetController (which only call enqueueStatefulSet) are exercised through enqueueStatefulSet directly because the constructor starts an event broadcaster"},
+		Stubs:        wiringStubs,
+		Assumptions:  []string{"the work queue is a recording fake", "symbolic mode replaces record.NewBroadcaster, workqueue.NewNamedRateLimitingQueue and workqueue.DefaultControllerRateLimiter by inert models (the native replay runs the real ones)", "informers are fakes that record the registered handlers and deliver one event"},
 		OutsideClaim: []string{"sequences of several events", "the real rate-limiting queue"},
 	})
 
@@ -379,6 +400,12 @@ func init() {
 				},
 				Asserts: []string{"a fixed point is reached within the derived number of rounds", "no pod outside the desired set remains", "every desired ordinal has its pod", "once converged a reconcile issues no write", "status.readyReplicas equals spec.replicas"},
 				Covers:  []string{"converged and quiet"}, MaxSteps: 40_000_000},
+			{Name: "converge-without-history", Pkg: pkgCtl, Func: "VH_Converge", Quick: []int{1, 2, 1, oThreeRevs | oLeanPods | oNoHistory}, Thorough: []int{2, 2, 1, oThreeRevs | oLeanPods | oNoHistory},
+				Bounds: func(a []int) string {
+					return fmt.Sprintf("as above with revisionHistoryLimit 0 (history trimming runs in every reconcile, also while a held-back update leaves no pod at the update revision) and <=%d healthy pods of any revision", a[0])
+				},
+				Asserts: []string{"a fixed point is reached within the derived number of rounds", "once converged a reconcile issues no write"},
+				Covers:  []string{"converged and quiet"}, MaxSteps: 40_000_000},
 		},
 		Stubs:        ctlStubs,
 		Assumptions:  append([]string{"fairness premise: Failed/Succeeded pods lie inside the desired set; no API failures, no user edits during convergence (the start state is arbitrary)"}, stepAssume...),
@@ -404,13 +431,19 @@ func init() {
 				},
 				Asserts: []string{"a failed API call makes the reconcile report failure", "after the failure a fixed point is reached"},
 				Covers:  []string{"two calls failed in one reconcile"}, MaxSteps: 40_000_000},
+			{Name: "failure-compared-with-a-run-without-failures", Pkg: pkgCtl, Func: "VH_Fault", Quick: []int{1, 1, 0, oThreeRevs, 1, 0, 1, 1}, Thorough: []int{1, 1, 1, oThreeRevs, 2, 0, 1, 1},
+				Bounds: func(a []int) string {
+					return fmt.Sprintf("as 'failure' (one failing call, %d error kinds, <=%d pods of any phase/readiness/revision, replicas in [0,%d], <=%d slots); the same start state is also run without failures and the two final states are compared: pods, their revisions, claims, status counters and revisions", a[4], a[0], a[1], a[2])
+				},
+				Asserts: []string{"every pod ends at the same revision as in the run without failures", "same current and update revision as the run without failures", "same pods as the run without failures"},
+				Covers:  []string{"final state compared with the run without failures", "fault injected at pod.create", "fault injected at pod.delete"}, MaxSteps: 80_000_000},
 			{Name: "crash", Pkg: pkgCtl, Func: "VH_Fault", Quick: []int{1, 1, 1, oLeanPods | oThreeRevs, 1, 1}, Thorough: []int{2, 2, 1, oLeanPods | oThreeRevs, 1, 1}, Bounds: faultBounds,
 				Asserts: []string{"after the failure a fixed point is reached", "no pod outside the desired set remains"},
 				Covers:  []string{"crash injected", "recovered from a crash"}, MaxSteps: 40_000_000},
 		},
 		Stubs:        ctlStubs,
 		Assumptions:  append([]string{"one fault per reconcile in the quick tier; the recovery rounds are fault free", "fairness premise as in C02"}, stepAssume...),
-		OutsideClaim: []string{"more than two faults in one reconcile", "faults during the recovery rounds"},
+		OutsideClaim: []string{"more than two faults in one reconcile", "faults during the recovery rounds", "in the comparison with the run without failures: the revision of pods created under RollingUpdate without a rollingUpdate block (legacy status.currentReplicas rule), and the revision history beyond the current and update revision"},
 	})
 
 	register(&spec{
@@ -423,7 +456,9 @@ func init() {
 				Asserts: []string{"the update revision resolves to the adopted built-in revision", "every marked revision is adopted", "revisions are label-synced before they are adopted", "every pod ends up adopted by the Advanced set", "the pod population is unchanged"},
 				Covers:  []string{"migration reconciled"}},
 			{Name: "migrate-with-a-failing-revision-write", Pkg: pkgCtl, Func: "VH_Migrate", Quick: []int{2, 1}, Thorough: []int{3, 1},
-				Bounds:  func(a []int) string { return fmt.Sprintf("as above (%d pods) with one failing label-sync or adoption write (server error or conflict)", a[0]) },
+				Bounds: func(a []int) string {
+					return fmt.Sprintf("as above (%d pods) with one failing label-sync or adoption write (server error or conflict)", a[0])
+				},
 				Asserts: []string{"every marked revision is adopted", "the update revision resolves to the adopted built-in revision"},
 				Covers:  []string{"migration reconciled", "fault injected at rev.update"}},
 		},
